@@ -381,53 +381,67 @@ func runC05(b *mon.B) {
 			b.Class("server/oversize/%d/%s", announced, split)
 			h := rfc8907.Header{Major: 0xc, Minor: 0, Type: 1 + r.Intn(3), Seq: 1, Session: r.U32(), Length: announced}
 			hb := h.Encode()
-			// a fresh, otherwise idle server: the heap meter is process-wide, so nothing else
-			// (in particular no long event log being grown by the monitor) may allocate meanwhile
-			srv := kit.StartLib(secret, &c05Handler{})
-			c := srv.L.Dial(simnet.RemoteFor(caseNo))
-			c.WaitQuiescent()
-			before := srv.Tap.Count()
-			var ms runtime.MemStats
-			runtime.ReadMemStats(&ms)
-			alloc0 := ms.TotalAlloc
-			t0 := srv.Net.Now()
-			switch split {
-			case "whole":
-				c.Feed(hb)
-			case "1-byte":
-				c.Feed(cutEvery(1)(r, hb, nil)...)
-			case "with-trailing-bytes":
-				c.Feed(append(append([]byte{}, hb...), r.Bytes(40)...))
+			trailing := r.Bytes(40)
+			// The heap meter is process-wide, so the scenario runs on a fresh, otherwise idle server,
+			// and it is repeated up to three times: sporadic allocations by the runtime or by idle
+			// goroutines are noise, an allocation made for the announced body is there every time.
+			// The verdict uses the smallest growth seen.
+			var grown uint64 = 1 << 62
+			readsAfter, timeouts, handlerRan := 0, 0, false
+			attemptFailed := false
+			for attempt := 0; attempt < 3 && grown > 64<<10; attempt++ {
+				osrv := kit.StartLib(secret, &c05Handler{})
+				c := osrv.L.Dial(simnet.RemoteFor(caseNo))
+				c.WaitQuiescent()
+				before := osrv.Tap.Count()
+				var ms runtime.MemStats
+				runtime.ReadMemStats(&ms)
+				alloc0 := ms.TotalAlloc
+				t0 := osrv.Net.Now()
+				switch split {
+				case "whole":
+					c.Feed(hb)
+				case "1-byte":
+					c.Feed(cutEvery(1)(r, hb, nil)...)
+				case "with-trailing-bytes":
+					c.Feed(append(append([]byte{}, hb...), trailing...))
+				}
+				c.Stall()
+				if err := c.WaitClosed(); err != nil {
+					b.Inconclusive("case %d: %v", caseNo, err)
+					osrv.Stop()
+					attemptFailed = true
+					break
+				}
+				runtime.ReadMemStats(&ms)
+				if g := ms.TotalAlloc - alloc0; g < grown {
+					grown = g
+				}
+				// after the byte that completes the header no further Read may be issued
+				delivered := 0
+				readsAfter, timeouts = 0, 0
+				for _, e := range osrv.Net.EventsSince(t0) {
+					if e.Conn != c.ID {
+						continue
+					}
+					switch e.Kind {
+					case simnet.KReadReturn:
+						delivered += e.N
+					case simnet.KReadEnter:
+						if delivered >= 12 {
+							readsAfter++
+						}
+					case simnet.KReadTimeout:
+						timeouts++
+					}
+				}
+				handlerRan = osrv.Tap.Count() != before
+				osrv.Stop()
 			}
-			c.Stall()
-			if err := c.WaitClosed(); err != nil {
-				b.Inconclusive("case %d: %v", caseNo, err)
-				srv.Stop()
+			if attemptFailed {
 				continue
 			}
-			runtime.ReadMemStats(&ms)
-			grown := ms.TotalAlloc - alloc0
-			defer srv.Stop()
 			b.Max("max:oversize_scenario_heap_growth_bytes", int(grown))
-			// after the byte that completes the header no further Read may be issued
-			delivered := 0
-			readsAfter := 0
-			timeouts := 0
-			for _, e := range srv.Net.EventsSince(t0) {
-				if e.Conn != c.ID {
-					continue
-				}
-				switch e.Kind {
-				case simnet.KReadReturn:
-					delivered += e.N
-				case simnet.KReadEnter:
-					if delivered >= 12 {
-						readsAfter++
-					}
-				case simnet.KReadTimeout:
-					timeouts++
-				}
-			}
 			w := map[string]interface{}{"announced": announced, "split": split, "reads_after_header": readsAfter, "heap_growth": grown}
 			if readsAfter > 0 || timeouts > 0 {
 				b.Violate(caseNo, "C05/server/oversize-header-waited-for-body", fmt.Sprintf("header announcing %d body bytes: the server issued %d more reads instead of refusing at once", announced, readsAfter), w)
@@ -435,7 +449,7 @@ func runC05(b *mon.B) {
 			if grown > 64<<10 {
 				b.Violate(caseNo, "C05/server/oversize-header-allocated", fmt.Sprintf("header announcing %d body bytes: %d bytes allocated", announced, grown), w)
 			}
-			if srv.Tap.Count() != before {
+			if handlerRan {
 				b.Violate(caseNo, "C05/server/oversize-delivered", "a handler ran for an oversize header", w)
 			}
 		}
